@@ -20,16 +20,19 @@ LEVEL = "exploration"
 SHARDS = {"quick": 16, "thorough": 16}
 FLOOR = {"quick": 40, "thorough": 800}
 REQUIRED_COUNTERS = ["history_steps", "import_probes", "core_symbol_checks", "histories_with_repetition", "histories_with_spec_change",
-                     "nonforce_steps", "core_depth_1", "core_depth_2", "core_depth_3", "core_depth_4", "registry_contract_evals"]
+                     "nonforce_steps", "core_depth_1", "core_depth_2", "core_depth_3", "core_depth_4", "core_depth_5", "core_depth_6",
+                     "registry_contract_evals"]
 RULE = ("histories of (client, document, force) actions over 3 clients x 4 documents (declared error sets {404}, {422,500}, {}, {404,409,503}) "
         "x shared core at depth 1-4; quick: random histories of length 4; thorough: all two-step histories + random length 5-6; "
         "case = history; non-trivial = >=2 clients on one core and >=2 steps")
 ASSUMPTIONS = ["a non-force step that raises (differences found) is a visible failure and not judged here (C09/C10); the tree it leaves is still probed"]
 
 ERRSETS = {"d404": [404], "d422_500": [422, 500], "dnone": [], "d404_409_503": [404, 409, 503]}
-CORES = {1: "sharedcore", 2: "acme.core", 3: "acme.shared.core", 4: "acme.platform.shared.core"}
+# 5 and 6: a shared core whose directory name extends the directory name of one of the clients (shop / shop_core)
+CORES = {1: "sharedcore", 2: "acme.core", 3: "acme.shared.core", 4: "acme.platform.shared.core", 5: "shop_core", 6: "acme.shop_core"}
 CLIENTS = {1: ["alpha", "beta", "gamma"], 2: ["acme.alpha", "acme.beta", "acme.gamma"], 3: ["acme.apis.alpha", "acme.apis.beta", "acme.gamma"],
-           4: ["acme.apis.alpha", "acme.beta", "other.gamma"]}
+           4: ["acme.apis.alpha", "acme.beta", "other.gamma"], 5: ["shop", "billing", "shop_api"], 6: ["acme.shop", "acme.billing", "other.gamma"]}
+NCONF = len(CORES)
 
 
 def make_doc(name: str) -> dict:
@@ -156,12 +159,12 @@ def histories(ctx: Ctx):
         i = 0
         steps = [(c, d, f) for c in range(3) for d in docs for f in (True,)]
         for a, b in itertools.product(steps, repeat=2):
-            for depth in (1, 2, 3, 4):
+            for depth in range(1, NCONF + 1):
                 i += 1
                 if ctx.mine(i):
                     yield depth, [a, b]
     for k in range(6 if ctx.quick else 40):
-        depth = (ctx.shard + k) % 4 + 1
+        depth = (ctx.shard + k) % NCONF + 1
         length = 4 if ctx.quick else rng.randint(5, 6)
         h = []
         for _ in range(length):
